@@ -473,6 +473,18 @@ def sym_truediv(a, b):
     return FloatDiv(a, b)
 
 
+def _rshift(a, b):
+    """a >> b = floor(a / 2^b); unlike 2 ** b this allocates nothing proportional to b (no resource obligation)"""
+    a = as_int(a, '>>')
+    b = as_int(b, '>>')
+    if not isinstance(a, Sym) and not isinstance(b, Sym):
+        return a >> b
+    eb = _as_int_expr(b)
+    if cur().branch(eb < 0):
+        raise ValueError("negative shift count")
+    return sym_floordiv(a, wrap(pow2_term(eb)))
+
+
 class Sym(object):
     __slots__ = ('e',)
 
@@ -625,10 +637,10 @@ class Sym(object):
         return o * sym_pow(2, self)
 
     def __rshift__(self, o):
-        return sym_floordiv(self, sym_pow(2, o))
+        return _rshift(self, o)
 
     def __rrshift__(self, o):
-        return sym_floordiv(o, sym_pow(2, self))
+        return _rshift(o, self)
 
     def __index__(self):
         raise Unsupported("symbolic value used as an index/size")
